@@ -106,3 +106,10 @@ def _class_name_attr(ex, st, obj):
     """<message>.name: the class' human readable command name (an arbitrary string per class)"""
     ex.decls.fun("class_display_name", [INT], STR)
     return VStr(app("class_display_name", STR, ex.type_of(st, obj.t)))
+
+
+# tables of the same kind are distinct objects: each is assigned exactly once, in Node.__init__, to a new `{}` (ground
+# obligation C13.struct.tables-assigned-once, props/ground.py)
+R.struct_fact("Node", "self.connections != self._half_ready_connections")
+R.assume("structural fact (ground obligation C13.struct.tables-assigned-once): Node.connections and "
+         "Node._half_ready_connections are distinct dictionaries")
